@@ -39,6 +39,14 @@ def make_records(tier, seed):
     words = ["".join(rng.choice(ALPHA) for _ in range(rng.randint(0, 4))) for _ in range(4000)]
     for _ in range(120000 if thorough else 12000):
         lists.append([rng.choice(singles if rng.random() < 0.6 else words) for _ in range(rng.randint(2, 3))])
+    # every ASCII code point on its own, inside a word and at the start of a word (the boundary of the "safe" character set,
+    # every shell metacharacter), more blanks and controls, a few non-ASCII classes; no arguments at all; many arguments
+    ascii_ = [chr(c) for c in range(1, 128)]
+    lists += [[c] for c in ascii_] + [["a" + c + "b"] for c in ascii_] + [[c + "a"] for c in ascii_] + [["x", c, "y"] for c in "?[]&|<>(){}!^=\r\x0b\x0c\x7f"]
+    lists += [[c] for c in "\u00a0\u2028\u3000\u0661\u0430\U0001f600e\u0301"] + [["\u00a0a b\u2028"]]
+    lists += [[]] + [[rng.choice(singles) for _ in range(rng.randint(4, 10))] for _ in range(60)]
+    # runs of backslashes before a quote and at the end of a quoted argument (the MS C runtime rules count them)
+    lists += [["\\" * n_ + '"'] for n_ in range(0, 7)] + [["a b" + "\\" * n_] for n_ in range(0, 7)] + [['"' + "\\" * n_ + '" x'] for n_ in range(0, 5)]
     lists += [["a b", "c\\", 'd"e', "", 'x\\"y', "trail space\\"], ["\\\\server\\share\\", 'say "hi"\\'], ["--opt=1", "-x", "file.txt", "a@b.c", "50%", "+1", "a,b", "x:y"]]
     recs = []
     for args in lists:
@@ -57,10 +65,13 @@ def make_records(tier, seed):
             recs.append({"kind": kind, "args": [cps(a) for a in args], "text": cps(text), "via": "escape_shell_args"})
     # integer lists: every subset of 0..9, given in shuffled order with duplicates; all windows
     for mask in range(1 << 10):
-        members = [i for i in range(10) if mask >> i & 1]
+        off = (0, 5, 95, 995)[mask % 4]            # runs that cross 9/10, 99/100, 999/1000: several digits, numeric order
+        members = [off + i for i in range(10) if mask >> i & 1]
         given = members + [rng.choice(members) for _ in range(rng.randint(0, 2))] if members else []
         rng.shuffle(given)
-        for start, end in ((0, 10), (rng.randint(0, 3), rng.randint(4, 12)), (2, 2)):
+        for win in ((off, off + 10), (off + rng.randint(0, 3), off + rng.randint(4, 12)), (off + 2, off + 2), None):
+            # None: the default window - from 0 up to and including the largest member
+            start, end = win if win else (0, (max(members) + 1) if members else 0)
             try:
                 text = su.format_int_list(given)
                 handed = su.parse_int_list(text)
@@ -70,7 +81,7 @@ def make_records(tier, seed):
                 if isinstance(handed, list):
                     handed.reverse()
                     handed.append(1000000)
-                comp = su.complement_int_list(text, range_start=start, range_end=end)
+                comp = su.complement_int_list(text, range_start=start, range_end=end) if win else su.complement_int_list(text)
                 rec = {"kind": "int", "members": members, "given": given, "text": cps(text), "parsed": parsed, "comp": cps(comp),
                        "start": start, "end": end}
             except Exception as ex:
